@@ -78,16 +78,21 @@ func Verify(stump Stump, delHashes []Hash, proof Proof) ([]int, error) {
 			"hashes for those targets", len(proof.Targets), len(delHashes))
 	}
 
-	_, rootCandidates, err := calculateHashes(stump.NumLeaves, delHashes, proof)
+	_, rootCandidates, candidatePositions, err := calculateHashesAndRootPositions(stump.NumLeaves, delHashes, proof)
 	if err != nil {
 		return nil, err
 	}
+
+	// A calculated root must match the root at the position it was calculated for.
+	rootPositions := RootPositions(stump.NumLeaves, TreeRows(stump.NumLeaves))
 	rootIndexes := make([]int, 0, len(rootCandidates))
 	for i := range stump.Roots {
-		if len(rootCandidates) > len(rootIndexes) &&
-			stump.Roots[len(stump.Roots)-(i+1)] == rootCandidates[len(rootIndexes)] {
+		idx := len(stump.Roots) - (i + 1)
+		if len(rootCandidates) > len(rootIndexes) && idx < len(rootPositions) &&
+			rootPositions[idx] == candidatePositions[len(rootIndexes)] &&
+			stump.Roots[idx] == rootCandidates[len(rootIndexes)] {
 
-			rootIndexes = append(rootIndexes, len(stump.Roots)-(i+1))
+			rootIndexes = append(rootIndexes, idx)
 		}
 	}
 
